@@ -220,6 +220,8 @@ func (d *Directory) handleBind(t TestingT) func(w *gldap.ResponseWriter, r *glda
 			// if it's not a simple auth request, then the bind failed...
 			return
 		}
+		d.mu.Lock()
+		defer d.mu.Unlock()
 		if m.Password == "" && d.allowAnonymousBind {
 			resp.SetResultCode(gldap.ResultSuccess)
 			return
@@ -233,8 +235,6 @@ func (d *Directory) handleBind(t TestingT) func(w *gldap.ResponseWriter, r *glda
 				if len(values) > 0 && string(m.Password) == values[0] {
 					resp.SetResultCode(gldap.ResultSuccess)
 					if d.controls != nil {
-						d.mu.Lock()
-						defer d.mu.Unlock()
 						resp.SetControls(d.controls...)
 					}
 					return
@@ -309,6 +309,8 @@ func (d *Directory) handleSearchGeneric(t TestingT) func(w *gldap.ResponseWriter
 			return
 		}
 		d.logSearchRequest(m)
+		d.mu.Lock()
+		defer d.mu.Unlock()
 
 		filter := m.Filter
 
@@ -386,8 +388,6 @@ func (d *Directory) handleSearchGeneric(t TestingT) func(w *gldap.ResponseWriter
 				}
 			}
 			if d.controls != nil {
-				d.mu.Lock()
-				defer d.mu.Unlock()
 				res.SetControls(d.controls...)
 			}
 			res.SetResultCode(gldap.ResultSuccess)
@@ -416,6 +416,8 @@ func (d *Directory) handleSearchGroups(t TestingT) func(w *gldap.ResponseWriter,
 			return
 		}
 		d.logSearchRequest(m)
+		d.mu.Lock()
+		defer d.mu.Unlock()
 
 		_, entries := d.findMembers(m.Filter)
 		foundEntries := len(entries)
@@ -449,8 +451,6 @@ func (d *Directory) handleSearchGroups(t TestingT) func(w *gldap.ResponseWriter,
 			d.logger.Debug("found entries", "op", op, "count", foundEntries)
 
 			if d.controls != nil {
-				d.mu.Lock()
-				defer d.mu.Unlock()
 				res.SetControls(d.controls...)
 			}
 			res.SetResultCode(gldap.ResultSuccess)
@@ -479,6 +479,8 @@ func (d *Directory) handleSearchUsers(t TestingT) func(w *gldap.ResponseWriter, 
 			return
 		}
 		d.logSearchRequest(m)
+		d.mu.Lock()
+		defer d.mu.Unlock()
 
 		var foundEntries int
 		_, _, entries := find(d.t, m.Filter, d.users)
@@ -500,8 +502,6 @@ func (d *Directory) handleSearchUsers(t TestingT) func(w *gldap.ResponseWriter, 
 		if foundEntries > 0 {
 			d.logger.Debug("found entries", "op", op, "count", foundEntries)
 			if d.controls != nil {
-				d.mu.Lock()
-				defer d.mu.Unlock()
 				res.SetControls(d.controls...)
 				fmt.Println(d.controls)
 			}
@@ -531,6 +531,8 @@ func (d *Directory) handleModify(t TestingT) func(w *gldap.ResponseWriter, r *gl
 			return
 		}
 		d.logger.Info("modify request", "dn", m.DN)
+		d.mu.Lock()
+		defer d.mu.Unlock()
 
 		var entries []*gldap.Entry
 		_, _, entries = find(d.t, fmt.Sprintf("(%s)", m.DN), d.users)
@@ -545,8 +547,6 @@ func (d *Directory) handleModify(t TestingT) func(w *gldap.ResponseWriter, r *gl
 			res.SetDiagnosticMessage(fmt.Sprintf("more than one match: %d entries", len(entries)))
 			return
 		}
-		d.mu.Lock()
-		defer d.mu.Unlock()
 		e := entries[0]
 		if entries[0].Attributes == nil {
 			e.Attributes = []*gldap.EntryAttribute{}
@@ -610,6 +610,8 @@ func (d *Directory) handleAdd(t TestingT) func(w *gldap.ResponseWriter, r *gldap
 			return
 		}
 		d.logger.Info("add request", "dn", m.DN)
+		d.mu.Lock()
+		defer d.mu.Unlock()
 
 		if found, _, _ := find(d.t, fmt.Sprintf("(%s)", m.DN), d.users); found {
 			res.SetResultCode(gldap.ResultEntryAlreadyExists)
@@ -621,8 +623,6 @@ func (d *Directory) handleAdd(t TestingT) func(w *gldap.ResponseWriter, r *gldap
 			attrs[a.Type] = a.Vals
 		}
 		newEntry := gldap.NewEntry(m.DN, attrs)
-		d.mu.Lock()
-		defer d.mu.Unlock()
 		d.users = append(d.users, newEntry)
 		res.SetResultCode(gldap.ResultSuccess)
 	}
@@ -649,6 +649,8 @@ func (d *Directory) handleDelete(t TestingT) func(w *gldap.ResponseWriter, r *gl
 			return
 		}
 		d.logger.Info("delete request", "dn", m.DN)
+		d.mu.Lock()
+		defer d.mu.Unlock()
 
 		_, foundAt, _ := find(d.t, fmt.Sprintf("(%s)", m.DN), d.users)
 		if len(foundAt) > 0 {
@@ -657,8 +659,6 @@ func (d *Directory) handleDelete(t TestingT) func(w *gldap.ResponseWriter, r *gl
 				res.SetDiagnosticMessage(fmt.Sprintf("more than one match: %d entries", len(foundAt)))
 				return
 			}
-			d.mu.Lock()
-			defer d.mu.Unlock()
 			d.users = append(d.users[:foundAt[0]], d.users[foundAt[0]+1:]...)
 			res.SetResultCode(gldap.ResultSuccess)
 			return
@@ -670,8 +670,6 @@ func (d *Directory) handleDelete(t TestingT) func(w *gldap.ResponseWriter, r *gl
 				res.SetDiagnosticMessage(fmt.Sprintf("more than one match: %d entries", len(foundAt)))
 				return
 			}
-			d.mu.Lock()
-			defer d.mu.Unlock()
 			d.groups = append(d.groups[:foundAt[0]], d.groups[foundAt[0]+1:]...)
 			res.SetResultCode(gldap.ResultSuccess)
 			return
@@ -844,6 +842,8 @@ func (d *Directory) ClientKey() string {
 
 // Controls returns all the current bind controls for the Directory
 func (d *Directory) Controls() []gldap.Control {
+	d.mu.Lock()
+	defer d.mu.Unlock()
 	return d.controls
 }
 
@@ -859,6 +859,8 @@ func (d *Directory) SetControls(controls ...gldap.Control) {
 
 // Users returns all the current user entries in the Directory
 func (d *Directory) Users() []*gldap.Entry {
+	d.mu.Lock()
+	defer d.mu.Unlock()
 	return d.users
 }
 
@@ -874,6 +876,8 @@ func (d *Directory) SetUsers(users ...*gldap.Entry) {
 
 // Groups returns all the current group entries in the Directory
 func (d *Directory) Groups() []*gldap.Entry {
+	d.mu.Lock()
+	defer d.mu.Unlock()
 	return d.groups
 }
 
@@ -899,11 +903,15 @@ func (d *Directory) SetTokenGroups(tokenGroups map[string][]*gldap.Entry) {
 
 // TokenGroups will return the tokenGroup entries
 func (d *Directory) TokenGroups() map[string][]*gldap.Entry {
+	d.mu.Lock()
+	defer d.mu.Unlock()
 	return d.tokenGroups
 }
 
 // AllowAnonymousBind returns the allow anon bind setting
 func (d *Directory) AllowAnonymousBind() bool {
+	d.mu.Lock()
+	defer d.mu.Unlock()
 	return d.allowAnonymousBind
 }
 
